@@ -60,7 +60,7 @@ def run(chk):
     seed0 = rng.randrange(10 ** 9)
     variants = []
     for v in range(k):
-        progs, stats = gen_prog.gen_programs(seed0, n, spelling_seed=1000 + v, focus={"listen": 0.3, "lists": 0.45}, recase_names=False)
+        progs, stats = gen_prog.gen_programs(seed0, n, spelling_seed=1000 + v, focus={"listen": 0.3, "lists": 0.45}, recase_names=False, extras=False)
         variants.append(progs)
     for key, val in stats.items():
         chk.count("gen:" + key, val)
